@@ -318,6 +318,7 @@ def judge(sc, rec):
     base = dict(conn=kind, variant=rec["variant"], fault=fk or "none")
     what = f"[real {rec['variant']}] {kind} requests={[(r['method'], r['body'], r['api']) for r in sc['requests']]} verify={sc['verify']} fault={sc.get('fault')}"
     refusal = kind in REFUSALS
+    tags_extra = []
     for i, (req, out) in enumerate(zip(sc["requests"], rec["outs"])):
         exc = out["exc"]
         if exc is None:
@@ -362,6 +363,11 @@ def judge(sc, rec):
             # httpcore parses each SOCKS5 reply from ONE read(): a reply cut short by the fault is reported as a malformed reply
             # (ProxyError). Whether a split-but-valid SOCKS reply should be reassembled is outside the listed properties (DESIGN 8.5).
             allowed.add("ProxyError")
+        if name not in allowed and name.endswith("Timeout") and SHORT in timeouts_for(sc).values():
+            # one of the 0.06 s limits configured for the fault expired in a step the fault did not touch (busy machine; e.g. a SOCKS negotiation
+            # read under the short connect timeout): inconclusive, never a verdict
+            tags_extra.append("inconclusive-other-short-timeout")
+            continue
         if name not in allowed and fk in ("stall", "tls-stall", "connect-stall", "read-stall"):
             v["C16"].append(V("C16", "timeout-not-applied", f"{what}: request {i} raised {exc['type']}: {exc['msg'][:120]} after {rec['times'][i]:.2f}s; the peer had gone "
                               f"silent ('{fk}') and the configured timeout is {SHORT}s: the operation was not limited by it", exc=name, **base))
@@ -451,6 +457,7 @@ def judge(sc, rec):
         tags.append("tls-close-without-close_notify")
     if sc.get("uds"):
         tags.append("unix-socket")
+    tags += tags_extra
     if any(p["tls"] >= 2 for p in rec["pipes"]):
         tags.append("tls-in-tls")
     if any(o["exc"] is None and len(o["body"]) > 60000 for o in rec["outs"]):
